@@ -80,6 +80,7 @@ StepFails(e, p, ps, ed, ud, ta, tlb, li, da, srp, at) ==
     \cup Fail("C11_Monotone", C11_MonotoneStep(p.job, s.job, ed))
     \cup Fail("C12_DeleteJustified", C12_DeleteJustifiedStep(c, dels, p.pods, s.pods, ps, s.now, EverOf(s), SuccOf(s)))
     \cup Fail("C12_ForceGate", C12_ForceGateStep(c, Range(e.fdels), p.pods, ps, s.now))
+    \cup Fail("C12_KillSticky", C12_KillStickyStep(p.job, s.job, p.now))
     \cup Fail("C13_Order", C13_OrderStep(p.job, s.job, s.pods))
     \cup Fail("C13_OrderAll", C13_OrderAllStep(p.job, s.job, s.pods))
     \cup Fail("C13_TTLNotEarly", C13_TTLNotEarlyStep(c, p.job, s.job, ta, ud, da, tlb))
@@ -96,7 +97,7 @@ Next ==
            ps == IF reset THEN NoPass
                  ELSE IF e.ev = "SyncBegin" THEN [now0 |-> p.now, j |-> p.jcache, p |-> p.pcache, stale |-> WStale(p), skew |-> WSkew(p)]
                  ELSE pass
-           ed == IF reset THEN FALSE ELSE edited \/ (e.ev \in {"UserKill", "UserDelete"} /\ p.job.kind = "Finished")
+           ed == IF reset THEN FALSE ELSE edited \/ (e.ev \in {"UserKill", "UserRekill", "UserDelete"} /\ p.job.kind = "Finished")
            ud == IF reset THEN FALSE ELSE udel \/ e.ev = "UserDelete"
            ta == IF reset THEN 0 ELSE IF e.ev = "Step" /\ e.op = "delete/jobs" /\ e.err \in {"", "applied-but-error"} /\ ttlAt = 0 THEN s.now ELSE ttlAt
            tlb == IF reset THEN 0 ELSE IF ta # ttlAt THEN MaxFin(p, listed, ps) ELSE ttlLB
